@@ -16,6 +16,7 @@ META_EXCLUDE.add('node_without_result')
 # peer would echo them back as meta, over the outcome of the next round trip
 META_EXCLUDE.add('errors')
 META_EXCLUDE.add('remote_finish')
+META_EXCLUDE.add('node_forwarded')
 META_EXCLUDE.add('success_channels')
 META_EXCLUDE.add('complete_channels')
 META_EXCLUDE.add('cause')
